@@ -10,11 +10,61 @@ SUFLEN = "uf('psl_suffix_length', 'Int', self, url)"
 
 TYPES = {"self": "Ref[SuffixTrie]", "url": "Obj", "result": WALK_T, "parts": "Seq[Str]", "offset": "Int", "_": "Ref[SuffixTrieNode]"}
 
+SNODE = "Ref[SuffixTrieNode]"
+
+# Representation invariant of a SuffixTrie `s`.  Abstract view (ghost): s.Rn : Key -> Bool  = normal / wildcard rules as reversed label
+# keys ('*.x.y' is the key [y, x, '*']);  s.Rx : Key -> (Str -> Bool) = exception labels recorded under a parent key.
+SINV = """(
+    s.N[s.__root] and s.__root.path == eps and s.at[eps] == s.__root and s.__root != null and not s.N[null]
+    and forall('sn st', implies(s.N[sn] and haschild(sn, st), s.N[child(sn, st)] and child(sn, st).path == snoc(sn.path, st)), child(sn, st))
+    and forall('sn', implies(s.N[sn], s.at[sn.path] == sn and alloc(sn)), s.N[sn])
+    and forall('sk', implies(s.at[sk] != null, s.N[s.at[sk]] and s.at[sk].path == sk), s.at[sk])
+    and forall('sk st', implies(s.at[snoc(sk, st)] != null, s.at[sk] != null and haschild(s.at[sk], st) and child(s.at[sk], st) == s.at[snoc(sk, st)]),
+               s.at[snoc(sk, st)])
+    and forall('sj sk', implies(pre(sj, sk) and s.at[sk] != null, s.at[sj] != null), (pre(sj, sk), s.at[sk]))
+    and forall('sk', s.Rn[sk] == (s.at[sk] != null and s.at[sk].leaf), s.Rn[sk])
+    and forall('sk se', s.Rx[sk][se] == (s.at[sk] != null and s.at[sk].exceptions is not None and se in s.at[sk].exceptions), s.Rx[sk][se])
+    and forall('sn', implies(s.N[sn] and sn.path != eps and klast(sn.path) == '*', sn.children is None and sn.exceptions is None), sn.children)
+    and s.__root.exceptions is None and not s.__root.leaf
+)"""
+
+R = "reversed(parts)"
+# a normal / wildcard rule r matches the label sequence; an exception (k, e) matches it
+MN = "(self.Rn[%(r)s] and klen(%(r)s) <= len(%(R)s) and (%(r)s == take(%(R)s, klen(%(r)s)) or (klen(%(r)s) >= 1 and %(r)s == snoc(take(%(R)s, klen(%(r)s) - 1), '*'))))"
+MX = "(self.Rx[%(k)s][%(e)s] and klen(%(k)s) < len(%(R)s) and %(k)s == take(%(R)s, klen(%(k)s)) and %(e)s == %(R)s[klen(%(k)s)])"
+
+
+def mn(r, RR=R):
+    return MN % {"r": r, "R": RR}
+
+
+def mx(k, e, RR=R):
+    return MX % {"k": k, "e": e, "R": RR}
+
+
+NO_DEEPER = ("g_exc or (forall('sk', implies(%s, klen(sk) <= g_i), self.Rn[sk]) and forall('sk se', not %s, self.Rx[sk][se]))" % (mn("sk"), mx("sk", "se")))
+RES_R = "reversed(some(result)[1])"
+SL = "ite(some(result)[2] == -1, len(some(result)[1]), len(some(result)[1]) - some(result)[2])"
+
+
+SINIT = [
+    "self.__root.path = eps",
+    "self.N = store(constmap('Ref[SuffixTrieNode]', False), self.__root, True)",
+    "self.at = store(constmap('Key', null), eps, self.__root)",
+    "self.Rn = constmap('Key', False)",
+    "self.Rx = constmap('Key', constmap('Str', False))",
+]
+
 MODULE = {
     "file": "ural/classes/suffix_trie.py",
+    "bound": {"sn": SNODE, "sk": "Key", "sj": "Key", "st": "Str", "se": "Str", "m": "Int"},
+    "macros": {"SInv": (["s"], SINV)},
     "classes": {
-        "SuffixTrieNode": {"fields": {"children": "Opt[Dict[Str,Ref[SuffixTrieNode]]]", "exceptions": "Opt[Obj]", "leaf": "Bool", "private": "Bool"}},
-        "SuffixTrie": {"fields": {"__root": "Ref[SuffixTrieNode]"}},
+        "SuffixTrieNode": {"fields": {"children": "Opt[Dict[Str,Ref[SuffixTrieNode]]]", "exceptions": "Opt[Set[Str]]", "leaf": "Bool", "private": "Bool"},
+                           "ghost": {"path": "Key"}},
+        "SuffixTrie": {"fields": {"__root": "Ref[SuffixTrieNode]"},
+                       "ghost": {"N": "Map[Ref[SuffixTrieNode],Bool]", "at": "Map[Key,Ref[SuffixTrieNode]]", "Rn": "Map[Key,Bool]", "Rx": "Map[Key,Map[Str,Bool]]"},
+                       "ghost_init": SINIT},
     },
     "obj_attrs": {"hostname": "Opt[Str]"},
     "library": {
@@ -22,32 +72,110 @@ MODULE = {
         "is_special_host": {"params": ["hostname"], "types": {"hostname": "Str"}, "returns": "Bool", "ensures": []},
     },
     "functions": {
+        "SuffixTrie.__init__": {
+            "types": {"self": "Ref[SuffixTrie]"}, "returns": "NoneType", "modifies": ["*"],
+            # an empty trie has the empty rule view
+            "ensures": ["SInv(self)", "forall('sk', not self.Rn[sk], self.Rn[sk])", "forall('sk se', not self.Rx[sk][se], self.Rx[sk][se])"],
+            "ghost_after": {"self.__root = SuffixTrieNode()": SINIT},
+        },
+        "SuffixTrie.add": {
+            "types": {"self": "Ref[SuffixTrie]", "suffix": "Str", "private": "Bool", "node": SNODE, "part": "Str", "child": "Opt[Ref[SuffixTrieNode]]"},
+            "returns": "NoneType",
+            "modifies": ["SuffixTrieNode.*", "SuffixTrie.N", "SuffixTrie.at", "SuffixTrie.Rn", "SuffixTrie.Rx"],
+            "requires": [
+                "SInv(self)",
+                "implies(reversed(suffix.split('.'))[len(reversed(suffix.split('.'))) - 1].startswith('!'), len(reversed(suffix.split('.'))) >= 2)",
+                # PSL rule format: the exception mark and the wildcard label only occur on the LEFTMOST label of a rule
+                "forall('m', implies(0 <= m and m < len(%(L)s) - 1, not %(L)s[m].startswith('!') and %(L)s[m] != '*'), %(L)s[m])" % {"L": "reversed(suffix.split('.'))"},
+            ],
+            "ensures": [
+                "SInv(self)",
+                # the view changes by exactly the rule denoted by `suffix`, nothing else
+                "implies(%(last)s.startswith('!'), self.Rn == old(self.Rn) and self.Rx == store(old(self.Rx), take(%(L)s, len(%(L)s) - 1),"
+                " store(old(self.Rx)[take(%(L)s, len(%(L)s) - 1)], %(last)s[1:], True)))" % {"L": "reversed(suffix.split('.'))", "last": "reversed(suffix.split('.'))[len(reversed(suffix.split('.'))) - 1]"},
+                "implies(not %(last)s.startswith('!'), self.Rx == old(self.Rx) and self.Rn == store(old(self.Rn), key(%(L)s), True))"
+                % {"L": "reversed(suffix.split('.'))", "last": "reversed(suffix.split('.'))[len(reversed(suffix.split('.'))) - 1]"},
+            ],
+            "loops": {1: {"index": "g_i", "invariant": [
+                "SInv(self)", "self.N[node]", "node.path == take(reversed(suffix.split('.')), g_i)",
+                "self.Rn == old(self.Rn)", "self.Rx == old(self.Rx)",
+                "forall('m', implies(0 <= m and m < g_i, not reversed(suffix.split('.'))[m].startswith('!')), reversed(suffix.split('.'))[m])",
+            ]}},
+            "asserts": dict((stmt, ["implies(g_i >= 1, node.path == snoc(take(reversed(suffix.split('.')), g_i - 1), reversed(suffix.split('.'))[g_i - 1]))",
+                                    "implies(g_i >= 1, klast(node.path) != '*')"])
+                            for stmt in ("node.children[part] = child", "node.children = {}", "node.exceptions.add(part[1:])", "if node.exceptions is None:")),
+            "ghost_after": {
+                "node.children[part] = child": [
+                    "child.path = snoc(node.path, part)",
+                    "self.N = store(self.N, child, True)",
+                    "self.at = store(self.at, snoc(node.path, part), child)",
+                ],
+                "node.exceptions.add(part[1:])": ["self.Rx = store(self.Rx, node.path, store(self.Rx[node.path], part[1:], True))"],
+                "node.leaf = True": ["self.Rn = store(self.Rn, node.path, True)"],
+            },
+        },
         "SuffixTrie.__walk": {
             "types": dict(TYPES, parsed="Obj", hostname="Str", current_length="Int", suffix_length="Int",
                           match="Opt[Ref[SuffixTrieNode]]", l="Int", node="Ref[SuffixTrieNode]", i="Int", part="Str",
-                          child="Opt[Ref[SuffixTrieNode]]", wildcard="Opt[Ref[SuffixTrieNode]]", result="NoneType"),
+                          child="Opt[Ref[SuffixTrieNode]]", wildcard="Opt[Ref[SuffixTrieNode]]", result="NoneType",
+                          g_exc="Bool", g_k="Key", g_e="Str", g_r="Key", g_walked="Bool", g_parts="Seq[Str]"),
             "returns": WALK_T,
+            "requires": ["SInv(self)"],
             "raises": {"ValueError": None},
-            # proved from the body: the shape of the result
+            "ghost_entry": ["g_exc = False", "g_walked = False"],
             "ensures": [
+                # shape
                 "implies(result is not None, len(some(result)[1]) >= 1)",
                 "implies(result is not None, some(result)[2] == -1 or (1 <= some(result)[2] and some(result)[2] < len(some(result)[1])))",
+                # publicsuffix.org semantics over the rule view (Rn, Rx) of the trie and the right-to-left label sequence R:
+                # an exception rule prevails and yields its parent as suffix ...
+                "implies(result is not None and exists('sk se', %s, self.Rx[sk][se]), exists('sk se', %s and klen(sk) == %s, self.Rx[sk][se]))"
+                % (mx("sk", "se", RES_R), mx("sk", "se", RES_R), SL),
+                # ... else the suffix is the LONGEST matching rule (a wildcard rule matches one extra label whatever else is stored under it)
+                "implies(result is not None and not exists('sk se', %s, self.Rx[sk][se]),"
+                " exists('sk', %s and klen(sk) == %s, self.Rn[sk]) and forall('sk', implies(%s, klen(sk) <= %s), self.Rn[sk]))"
+                % (mx("sk", "se", RES_R), mn("sk", RES_R), SL, mn("sk", RES_R), SL),
+                # a host matched by no rule has no valid suffix
+                "implies(result is None and g_walked, forall('sk', not %s, self.Rn[sk]) and forall('sk se', not %s, self.Rx[sk][se]))"
+                % (mn("sk", "reversed(g_parts)"), mx("sk", "se", "reversed(g_parts)")),
             ],
-            # NOT proved (semantic link to the PSL algorithm; checked bounded in bcheck/c08.py against an independent implementation)
+            # naming only: psl_suffix_length(self, url) / host_labels(url) denote what this function computes (used by the extractors' contracts)
             "assumed_ensures": [
                 "implies(result is not None, some(result)[1] == %s)" % LABELS,
                 "implies(result is not None, 1 <= %s and %s <= len(%s))" % (SUFLEN, SUFLEN, LABELS),
                 "implies(result is not None, some(result)[2] == ite(%s == len(%s), -1, len(%s) - %s))" % (SUFLEN, LABELS, LABELS, SUFLEN),
             ],
             "loops": {1: {"index": "g_i", "invariant": [
-                "0 <= current_length and current_length <= g_i",
+                "SInv(self)", "l == len(parts)", "l >= 1", "g_walked", "not g_exc",
+                "current_length == g_i",
+                "self.N[node]",
+                "node.path == take(%(R)s, g_i) or (g_i >= 1 and node.path == snoc(take(%(R)s, g_i - 1), '*') and node.children is None and self.at[take(%(R)s, g_i)] == null)" % {"R": R},
                 "0 <= suffix_length and suffix_length <= g_i",
-                "l == len(parts)",
-                "implies(match is None, suffix_length == 0)",
+                "(suffix_length == 0) == (match is None)",
+                "implies(suffix_length > 0, %s and klen(g_r) == suffix_length)" % mn("g_r"),
+                "forall('sk', implies(%s and klen(sk) <= g_i, klen(sk) <= suffix_length), self.Rn[sk])" % mn("sk"),
+                "forall('sk se', implies(%s, klen(sk) >= g_i), self.Rx[sk][se])" % mx("sk", "se"),
             ]}},
+            "ghost_before": {
+                "for i in range(l - 1, -1, -1):": ["g_walked = True", "g_parts = parts"],
+                "if node.exceptions is not None and part in node.exceptions:": [
+                    "g_exc = (node.exceptions is not None and part in node.exceptions)", "g_k = node.path", "g_e = part"],
+            },
+            "ghost_after": {
+                "suffix_length = current_length + 1": ["g_r = snoc(node.path, '*')"],
+                "suffix_length = current_length": ["g_r = node.path"],
+            },
+            "asserts": {
+                "break": [
+                    "g_exc or self.at[take(%(R)s, g_i + 1)] == null" % {"R": R},
+                    "g_exc or self.at[snoc(take(%(R)s, g_i), '*')] == null" % {"R": R},
+                    NO_DEEPER,
+                ],
+                "if match is None or suffix_length == 0:": [NO_DEEPER],
+            },
         },
         "SuffixTrie.split": {
-            "types": TYPES, "returns": "Opt[Tuple[Str,Str]]", "raises": {"ValueError": None},
+            "types": TYPES, "requires": ["SInv(self)"], "returns": "Opt[Tuple[Str,Str]]", "raises": {"ValueError": None},
             "ensures": [
                 # the two parts re-join to the (lower-cased, dot-stripped) hostname
                 "implies(result is not None and %s == len(%s), some(result)[0] == '' and some(result)[1] == '.'.join(%s))" % (SUFLEN, LABELS, LABELS),
@@ -57,13 +185,13 @@ MODULE = {
             ],
         },
         "SuffixTrie.extract_suffix": {
-            "types": TYPES, "returns": "Opt[Str]", "raises": {"ValueError": None},
+            "types": TYPES, "requires": ["SInv(self)"], "returns": "Opt[Str]", "raises": {"ValueError": None},
             "ensures": [
                 "implies(result is not None, some(result) == ite(%s == len(%s), '.'.join(%s), '.'.join(%s[len(%s) - %s:])))" % (SUFLEN, LABELS, LABELS, LABELS, LABELS, SUFLEN),
             ],
         },
         "SuffixTrie.extract_domain_name": {
-            "types": TYPES, "returns": "Opt[Str]", "raises": {"ValueError": None},
+            "types": TYPES, "requires": ["SInv(self)"], "returns": "Opt[Str]", "raises": {"ValueError": None},
             "ensures": [
                 # host itself for a bare suffix, else exactly one more label than the suffix
                 "implies(result is not None and %s == len(%s), some(result) == '.'.join(%s))" % (SUFLEN, LABELS, LABELS),
@@ -72,7 +200,7 @@ MODULE = {
             ],
         },
         "SuffixTrie.has_valid_domain_name": {
-            "types": TYPES, "returns": "Bool", "raises": {"ValueError": None},
+            "types": TYPES, "requires": ["SInv(self)"], "returns": "Bool", "raises": {"ValueError": None},
             "ensures": [],
         },
     },
